@@ -503,6 +503,12 @@ pub fn rw_option(r: &R, e: &Expr) -> Option<String> {
             let b = r.expr(&cl.body);
             Some(format!("(match {} {{ Some(qx_v) => Some(qx_v), None => {} }})", recv, b))
         }
+        "then_some" if mc.args.len() == 1 && r.opts.has_rw("opt_closure") => {
+            r.note("R3 bool::then_some -> if/else");
+            let recv = r.expr(&mc.receiver);
+            let v = r.expr(&mc.args[0]);
+            Some(format!("(if {} {{ Some({}) }} else {{ None }})", recv, v))
+        }
         "map_or" if mc.args.len() == 2 && r.opts.has_rw("opt_closure") => {
             let cl = closure_of(&mc.args[1])?;
             r.note("R3 Option::map_or -> match");
